@@ -467,4 +467,35 @@ theorem snapshot_no_errors (compute : Key → V) : Statement_no_new_errors .snap
     (run_inv (cstep .snapshot compute) (fun s => ∀ th ∈ s.threads, NoErr th)
       (cstep_snapshot_noErr compute) sched _ h0)
 
+/-! #### the harness's coarse schedules are fine schedules -/
+
+theorem runSched_append {σ : Type} (step : Nat → σ → σ) (a b : List Nat) (s : σ) :
+    runSched step (a ++ b) s = runSched step b (runSched step a s) := by
+  unfold runSched; rw [List.foldl_append]
+
+theorem quantum_is_fine (mode : Mode) (compute : Key → V) (t : Nat) (s : CState V) :
+    (quantum mode compute t s).1 = runSched (cstep mode compute) (quantum mode compute t s).2 s := by
+  unfold quantum
+  simp only
+  split
+  · split <;> rfl
+  · rfl
+
+/-- **coarse_run_is_fine_run.** A schedule at the granularity of the traced scheduler (one thread
+id per source-line quantum) is an ordinary schedule of the transition system: the theorems above,
+which quantify over all fine schedules, apply to every run the harness replays or explores. -/
+theorem coarse_run_is_fine_run (mode : Mode) (compute : Key → V) (coarse : List Nat) :
+    ∀ s : CState V, (coarseRun mode compute coarse s).1
+      = runSched (cstep mode compute) (coarseRun mode compute coarse s).2 s := by
+  induction coarse with
+  | nil => intro s; rfl
+  | cons t ts ih =>
+    intro s
+    simp only [coarseRun]
+    rw [runSched_append, ← quantum_is_fine, ← ih]
+
+/-- the witness at the harness's granularity: nine quanta, standing for the twelve fine steps -/
+example : (coarseRun .live (fun k : Key => k) [0, 0, 0, 1, 1, 1, 1, 1, 0] (cinit cexDq cexProgs)).2 = cexSched := by
+  decide
+
 end SparseV.C13
